@@ -1,14 +1,13 @@
 """C20 - triangle up-sampling tiles exactly; neighbourhoods, selections and containment are faithful."""
 import functools
 import itertools
-import os
 from fractions import Fraction
 
 import numpy as np
 import z3
 
 from symx import hx, values as V
-from symx.values import is_sym, SymBool
+from symx.values import is_sym
 
 PROPERTY = "C20"
 FUNCTIONS = [
@@ -873,18 +872,23 @@ def replay(cand):
 
 def _coord_sets(tier):
     sets = []
-    R = 3 if tier == "quick" else 4
+    R = 3 if tier == "quick" else 5
     for flipped in (False, True):
         for cx in range(-R, R + 1):
             for cy in range(-R, R + 1):
                 sets.append(([[cx, cy]], flipped))
     W = (-1, 0, 1) if tier == "quick" else (-2, -1, 0, 1, 2)
-    cells = [(x, y) for x in W for y in ((-1, 0, 1) if tier == "quick" else (-1, 0, 1))]
+    cells = [(x, y) for x in W for y in ((-1, 0, 1) if tier == "quick" else (-2, -1, 0, 1, 2))]
     for flipped in (False, True):
         for a in cells:
             for b in cells:
                 if a != b:
                     sets.append(([list(a), list(b)], flipped))
+    if tier != "quick":
+        win = [(x, y) for x in (0, 1, 2) for y in (0, 1)]
+        for flipped in (False, True):
+            for tri in itertools.permutations(win, 3):
+                sets.append(([list(c) for c in tri], flipped))
     multi = [
         [[0, 0], [1, 0], [2, 0], [0, 1], [1, 1], [2, 1]],                  # hexagon around a lattice vertex
         [[-2, 0], [-1, 0], [0, 0], [1, 0], [2, 0]],                       # strip
@@ -907,8 +911,8 @@ def cases(tier):
     out = []
     sets = _coord_sets(tier)
     singles = [s for s in sets if len(s[0]) == 1]
-    pairs = [s for s in sets if len(s[0]) == 2]
-    multi = [s for s in sets if len(s[0]) > 2]
+    pairs = [s for s in sets if len(s[0]) in (2, 3)]
+    multi = [s for s in sets if len(s[0]) > 3]
     for m in multi:
         out.append(("case_coord", {"sets": [m], "subsets": "few"}))
     chunk = 8
@@ -943,9 +947,10 @@ def cases(tier):
     for kind, ss in plan:
         for coords, flipped, side in ss:
             out.append(("case_shape", {"coords": coords, "flipped": flipped, "side": side, "kind": kind}))
-    if tier != "quick":
-        for kind in ("triangle", "polygon3", "polygon4"):      # all shape vertices symbolic (non-linear barycentric tests)
-            out.append(("case_shape", {"coords": S1[0], "flipped": False, "side": 1.0, "kind": kind}, {"split": 4, "logic": "QF_NRA"}))
+    # all shape vertices symbolic (non-linear barycentric tests); a symbolic 4-gon does not terminate (> 15 min without a first path)
+    for kind in (("triangle",) if tier == "quick" else ("triangle", "polygon3")):
+        for S in ((S1,) if tier == "quick" else (S1, S2)):
+            out.append(("case_shape", {"coords": S[0], "flipped": S[1], "side": S[2], "kind": kind}, {"split": 4, "logic": "QF_NRA"}))
     # vertex array, one vertex symbolic (Point.mask treats the three vertices differently), shape symbolic
     fixed = [[None, None, 1.0, 0.0, -0.5, 2.0], [-1.0, -0.25, None, None, 0.5, 2.0], [1.0, 1.0, -2.0, 0.5, None, None]]
     for kind in ("point", "circle", "square"):
@@ -956,16 +961,21 @@ def cases(tier):
 
 BOUNDS = {
     "quick": "integer-coordinate sets: every single triangle with coordinates in [-3,3]^2, every ordered pair from a 3x3 window, 4 larger sets "
-             "(hexagon, strip, scattered), each with flipped=False/True; side length (> 0), x/y offsets symbolic reals; index subsets: all non-empty "
+             "(hexagon, strip, scattered; 5-6 triangles), each with flipped=False/True; side length (> 0), x/y offsets symbolic reals; second level "
+             "(up_sample / neighborhood of the up-sampled and of the neighbourhood set) for sets of <= 2 triangles; index subsets: all non-empty "
              "subsets (+ reversed, repeated) for sets of <= 2 triangles, 5 fixed subsets otherwise; for_limits_and_scale with concrete limits and "
              "symbolic scale in [0.75, 1.5]. Vertex arrays: one triangle with all 6 vertex coordinates symbolic (public methods, np.unique explored by "
-             "forking on coordinate comparisons, ties included); 1-2 triangles (shared edge / disjoint) all coordinates symbolic at the level of the "
-             "vectorised helpers; the mesh of ArrayTriangles.for_limits_and_scale(0,1,0,1,1) under a symbolic similarity (scale > 0, shift). "
-             "Containment: Point/Circle/Square/Triangle/Polygon(3,4 vertices) with all shape parameters symbolic on 4 small coordinate sets "
-             "(concrete dyadic side length, symbolic offsets), both representations.",
-    "thorough": "single coordinates in [-4,4]^2, ordered pairs from a 5x3 window, 7 larger sets (up to 15 triangles); two for_limits_and_scale ranges; "
-                "vertex arrays additionally two triangles sharing an edge with all 8 coordinates symbolic through the public methods, a second mesh, "
-                "3-triangle strip at helper level; containment additionally Polygon(5) and two more coordinate sets.",
+             "forking on coordinate comparisons, ties and degenerate triangles included); 1-2 triangles (shared edge / disjoint) all coordinates "
+             "symbolic at the level of the vectorised helpers (one formula, no forking); the mesh topology of ArrayTriangles.for_limits_and_scale(0,1,0,1,1) "
+             "snapped to an exact lattice under a symbolic similarity (scale > 0, shift). Containment (reference point strictly inside triangle t => t "
+             "reported by shape.mask and containing_indices, both representations): Point / Circle / Square with all parameters symbolic on 4-5 small "
+             "coordinate sets (1-3 triangles, concrete dyadic side length, symbolic offsets) and on a vertex-array triangle with one symbolic vertex; "
+             "Triangle / Polygon shapes: 4 concrete templates (3-4 vertices, one non-convex) under a symbolic translation, plus a Triangle with all six "
+             "vertex coordinates symbolic on one lattice triangle.",
+    "thorough": "single coordinates in [-5,5]^2, ordered pairs from a 5x5 window, ordered triples from a 3x2 window, 7 larger sets (up to 15 triangles); two for_limits_and_scale ranges "
+                "(scale in [0.5, 2]); vertex arrays additionally two triangles sharing an edge with all 8 coordinates symbolic through the public methods "
+                "(4365 orderings), a second mesh, a 3-triangle strip at helper level; containment additionally a 5-gon and a sliver template, two more "
+                "coordinate sets, Triangle and 3-vertex Polygon with all vertices symbolic on an upright and an inverted lattice triangle.",
 }
 OUTSIDE = [
     "float64 coincidence of vertices computed along different routes (np.unique on floats): the solver works in exact real arithmetic where coincident "
@@ -973,7 +983,9 @@ OUTSIDE = [
     "for_limits_and_scale with symbolic limits (np.arange / range over symbolic bounds); ArrayTriangles.for_limits_and_scale enters only through concrete "
     "limits followed by a symbolic similarity transform",
     "symbolic (solver-variable) lattice coordinates: boolean fancy indexing needs concrete coordinates, they are enumerated",
-    "NaN-padded / JAX variants (jax_array.py, jax_coordinate_array.py)",
+    "NaN-padded / JAX variants (jax_array.py, jax_coordinate_array.py; jax is not installed)",
+    "containment for vertex-array triangles with more than one symbolic vertex, Square with symbolic vertex 1 or 2, Polygon with >= 4 symbolic vertices "
+    "(non-linear rational barycentric tests: z3 does not terminate); the converse direction (reported => intersects) is not part of the property",
     "reference points within 1e-9 (cross-product units) of a triangle edge; degenerate triangles in the containment clause (Point.mask divides by the "
     "doubled signed area)",
     "the order of triangles / vertices in the outputs (sets of triangles are compared as sets of vertex sets, counts separately)",
@@ -983,6 +995,10 @@ STUBS = [
     "comparison either decided from the linear forms under the positivity assumption (side length / scale > 0) or forked and decided by z3; "
     "concrete arrays go to the real np.unique",
     "np.mean on proxies: sum / count",
+    "Explorer.decide is wrapped (POST_INSTALL) with a per-path memo: a condition already decided on the current path returns the recorded outcome "
+    "(it is part of the path condition) instead of a new solver query",
+    "ordering shortcut: a comparison whose difference is a linear form c0 + sum c_i*v_i over variables assumed > 0 with all c_i, c0 of one sign "
+    "is decided without the solver; every 64th such decision is re-decided by z3 (disagreement = harness error)",
     "HEIGHT_FACTOR = 3**0.5/2 enters as the exact rational value of its float64 (all checked identities are polynomial identities that hold for any value of it)",
 ]
 ASSUMPTIONS = [
